@@ -387,6 +387,11 @@ func c14SeqOracle(bucketNs int64) func(r *SeqRun) []Viol {
 func c14Seq(tier string) []SeqJob {
 	var out []SeqJob
 	mk := func(name string, keys []int, ttls []int64, depth int, secs float64, compound bool) {
+		su := ""
+		if keys[0] < 0 {
+			su = "refuse-even" // Config.ShouldUpdate vetoes writes whose value id is even
+			keys = keys[1:]
+		}
 		var alpha []Op
 		for _, k := range keys {
 			for _, t := range ttls {
@@ -400,7 +405,7 @@ func c14Seq(tier string) []SeqJob {
 		} else {
 			alpha = append(alpha, Op{K: "tick"}, Op{K: "advance", N: 1000})
 		}
-		spec := &SeqSpec{Cfg: Cfg{NumCounters: 16, MaxCost: 8, BufferItems: 2, SetBuf: 3, TTLTick: 2, BucketSecs: 1}, MaxDepth: depth,
+		spec := &SeqSpec{Cfg: Cfg{NumCounters: 16, MaxCost: 8, BufferItems: 2, SetBuf: 3, TTLTick: 2, BucketSecs: 1, ShouldUpdate: su}, MaxDepth: depth,
 			Alphabet: func(r *SeqRun) []Op { return alpha }, Oracle: c14SeqOracle(1e9),
 			// the liveness oracle counts qualifying sweeps per stored entry: part of the state
 			Abstract: func(r *SeqRun, ren func(int64) int64) string {
@@ -440,10 +445,12 @@ func c14Seq(tier string) []SeqJob {
 	if tier == "quick" {
 		mk("seq/1key/ttl{1,12}s/compound-sweep/depth7", []int{1}, []int64{1000, 12000}, 7, 40, true)
 		mk("seq/2keys/ttl{1}s/compound-sweep/depth6", []int{1, 257}, []int64{1000}, 6, 40, true)
+		mk("seq/1key/ttl{1,12}s/shouldupdate-vetoes/compound-sweep/depth7", []int{-1, 1}, []int64{1000, 12000}, 7, 40, true)
 	} else {
 		mk("seq/1key/ttl{1,3,12}s/compound-sweep/depth9", []int{1}, []int64{1000, 3000, 12000}, 9, 560, true)
 		mk("seq/2keys/ttl{1,12}s/compound-sweep/depth7", []int{1, 257}, []int64{1000, 12000}, 7, 560, true)
 		mk("seq/1key/ttl{1,12}s/tick-and-applier-separate/depth10", []int{1}, []int64{1000, 12000}, 10, 560, false)
+		mk("seq/1key/ttl{1,3,12}s/shouldupdate-vetoes/compound-sweep/depth9", []int{-1, 1}, []int64{1000, 3000, 12000}, 9, 560, true)
 	}
 	return out
 }
